@@ -59,6 +59,8 @@ type Ctx struct {
 	Sample []string
 	// Notes are diagnostic remarks (e.g. why a run ended early); the first few are kept in the summary.
 	Notes []string
+	// Tainted is set by an engine that knows goroutines were left behind (a detected hang): the worker process exits after this run.
+	Tainted bool
 }
 
 // NewCtx creates a run context.
